@@ -25,7 +25,7 @@ ASSUMPTIONS = [
     'signature of the running interpreter (no `random` argument on Python >= 3.11)',
     'change address constant; sign=False (input scripts keep their 72/33-byte placeholders, which is what create() sizes fees with)',
 ]
-OUTSIDE = ['sqlite coin selection strategy', 'more UTXOs/outputs than the bound', 'signing and real signature sizes']
+OUTSIDE = ['the sqlite coin selection strategy outside the real-db job (concrete amount and payment catalogues)', 'more UTXOs/outputs than the bound', 'signing and real signature sizes']
 
 VM_REF = [None]
 CHANGE_ADDRESS = 'bW5PZEvEBNPQRVhwpYXSjabFgbSw1oaHyR'
@@ -335,6 +335,8 @@ def native_setup(nvm, job):
 def spend_sql_job(vm, n_utxo, strategies):
     """Selection over the real wallet database (harness/spend_sql.py): the `sqlite` strategy, which the other jobs cannot reach."""
     from harness import spend_sql
+    from symvm import standin
+    standin.guard_harness_classes()
     return spend_sql.spend(vm, n_utxo, strategies)
 
 
